@@ -1101,10 +1101,10 @@ def run(ctx):
         "binary, wide, near, random); malformed stream (non-permutations, non-partitions) for the extracted checkers only. "
         "non-trivial = n>=2 with at least one stored entry (forests: n>=2).")
     ctx.cov["partial"] += [
-        "coletree_is_spec: the equality sp_coletree model = coletree_spec (and sp_symetree = symetree_spec) is NOT proved in Coq; it is "
-        "compared on every generated pattern (C vs model vs extracted spec vs independent reference)",
-        "the renumbered etree reported by sp_colorder equals the etree of the FINAL A*Pc (postorder invariance of etrees) is not proved; "
-        "compared per input against the spec evaluated on the final AC",
+        "symmetric mode (colorder_perm_sym_partial): the conclusions are proved for every run of the model that returns a result; "
+        "totality of the at_plus_a model on well-formed square input, and 'the reported etree is the etree of Pc(A+A')Pc'' (needs "
+        "at_plus_a = pattern of A+A') are NOT proved in Coq; both are compared on every generated square pattern (C vs model vs "
+        "extracted symetree_spec vs independent reference)",
         "MMD (mmd.c), COLAMD (colamd.c), getata/at_plus_a as used by get_perm_c, qrnzcnt.c, cholnzcnt.c are not modelled: the verified "
         "checkers check_perm / check_blocks and the reference column counts are run on their outputs for every generated pattern",
         "sp_colorder for m > n (and for n = 0) is run in the campaign only when the sanitizer probes of these classes are clean "
@@ -1113,6 +1113,8 @@ def run(ctx):
         "options->refact == YES (arrays reused) belongs to C08",
         "colcnt_h is compared with an independent count only in symmetric mode (Cholesky counts) and, in non-symmetric mode, for square "
         "patterns with zero-free diagonal (Householder row paths)",
+        "the extracted definitional spec is evaluated only for patterns with nnz <= %d (cost ~ nnz^2); larger ones are compared with the "
+        "independent reference only" % SPEC_CAP,
     ]
     ctx.cov["trusted_base"] += [
         "tools/etree_ref.py: independent bit-set reference (elimination game, postorder / partition predicates) used as the property oracle",
